@@ -9,7 +9,7 @@ from __future__ import annotations
 import random
 
 SIZES = [0, 1, 1, 2, 2, 2, 3, 3, 4, 6, None, None]
-CB_KINDS = [None, None, "s", "s", "a", "g", "sx", "ax", "gx", "sT", "sm", "am", "so", "sp", "ap", "gp"]
+CB_KINDS = [None, None, "s", "s", "a", "g", "sx", "ax", "gx", "sT", "sm", "am", "so", "sp", "ap", "gp", "sf"]
 CB_KINDS_SAFE = [None, "s", "a", "g", "sm"]
 ASH = [0, 1, 2, 3, 3, 5, 6]      # payload shapes (4 is the counting iterator of rejected requests)
 POINTS = ["ws", "we", "wc", "ecb", "ccb", "it", "fa"]
@@ -24,8 +24,8 @@ BASE_W = {
 # per-property emphasis (multipliers on BASE_W) and knobs
 PROFILES = {
     "C01": {"w": {"spawn": 1.6, "cancel": 1.2, "flush": 0.8, "gate_c": 3.0, "resize_idle": 6.0}, "sizes": [0, 1, 1, 2, 2, 3, 4, None]},
-    "C02": {"w": {"cancel": 1.6, "cancel_group": 1.4, "flush": 1.8, "gate_x": 2.0, "gate_c": 3.0}, "cb": CB_KINDS},
-    "C03": {"w": {"cancel": 1.8, "cancel_group": 1.4, "stop": 1.5, "flush": 1.2}, "cb": ["s", "a", "g", "g", "sx", "sT", None, "sm", "am", "sxm", "so", "sp", "ap", "gp", "sxo"]},
+    "C02": {"w": {"cancel": 1.6, "cancel_group": 1.4, "flush": 1.8, "gate_x": 2.0, "gate_c": 3.0}, "cb": CB_KINDS + ["sf"]},
+    "C03": {"w": {"cancel": 1.8, "cancel_group": 1.4, "stop": 1.5, "flush": 1.2}, "cb": ["s", "a", "g", "g", "sx", "sT", None, "sm", "am", "sxm", "so", "sp", "ap", "gp", "sxo", "sf"]},
     "C04": {"w": {"spawn": 1.5, "lock": 3.0, "gather": 2.0, "cancel": 0.7}, "kinds": ["apply", "apply", "apply", "map"], "simple": 0.45, "named": 0.35},
     "C05": {"w": {"spawn": 1.4, "cancel": 1.4, "gate": 1.3}, "kinds": ["map", "starmap", "doublestarmap", "map", "apply"], "simple": 0.0},
     "C06": {"w": {"cancel": 5.0, "flush": 1.5, "cancel_group": 0.6}, "stubborn": 0.35},
@@ -88,7 +88,7 @@ class Gen:
             elif rng.random() < 0.12:
                 p["name"] = ""              # an empty name is no name: the pool is named by its index
             if cls == "S":
-                p["fk"] = rng.choice(["sync", "sync", "plain", "pmeth"])
+                p["fk"] = rng.choice(["sync", "sync", "plain", "pmeth", "wrap"])
                 p["fn"] = rng.randrange(3)
                 p["ash"] = rng.choice(ASH)
                 p["ecb"] = rng.choice(self.cb_kinds)
@@ -99,8 +99,16 @@ class Gen:
                     p["fx"] = rng.randrange(5)
             pools.append(p)
         cfg = {"hmask": rng.choice([0, 0, 1, 3, 6, 7, 12, 21]), "pools": pools}
+        return self._env_knobs(cfg)
+
+    def _env_knobs(self, cfg):
+        """Process-level configuration the application may have chosen: the library's logger enabled at DEBUG, warnings
+        treated as errors."""
+        rng = self.rng
         if rng.random() < 0.15:
             cfg["loglevel"] = "DEBUG"
+        if rng.random() < 0.12:
+            cfg["wfilter"] = "error"
         return cfg
 
     def _script(self):
@@ -186,7 +194,7 @@ class Gen:
             return st
         kind = rng.choice(self.prof.get("kinds", ["apply", "apply", "map", "starmap", "doublestarmap"]))
         st["kind"] = kind
-        st["fk"] = rng.choice(["sync", "sync", "sync", "plain", "pmeth"])
+        st["fk"] = rng.choice(["sync", "sync", "sync", "plain", "pmeth", "wrap"])
         st["fn"] = rng.randrange(3)
         st["ecb"] = rng.choice(self.cb_kinds)
         st["ccb"] = rng.choice(self.cb_kinds)
@@ -212,7 +220,7 @@ class Gen:
                 st["elems"][rng.randrange(n)] = 4        # the iterable raises when it gets here
             st["nc"] = rng.choice([1, 1, 2, 2, 3, 5])
             if rng.random() < 0.3:
-                st["itk"] = 1            # a re-iterable container with a length instead of a one-pass iterator
+                st["itk"] = rng.choice([1, 1, 2])     # a re-iterable container with a length (2: a length that is not the element count)
             if kind == "doublestarmap" and rng.random() < 0.2:
                 st["elems"] = [5 if e == 0 else e for e in st["elems"]]     # keyword names like the library's own parameters
             if st["fk"] == "sync" and rng.random() < self.fail_rate and n:
@@ -222,7 +230,7 @@ class Gen:
             st["ash"] = 4            # args given as a one-shot counting iterator (only used for rejected requests)
         if bad == "notcoro":
             st["bad"] = "notcoro"
-            st["nck"] = rng.randrange(5)
+            st["nck"] = rng.randrange(6)
         elif bad == "nc0" and kind != "apply":
             st["nc"] = rng.choice([0, -1, 0.5, 0.999, -0.5])
         return st
@@ -231,7 +239,7 @@ class Gen:
         rng = self.rng
         how = rng.choice(["notcoro", "nc0", "dup", "state", "state", "negsize"])
         if how == "negsize":
-            return {"op": "bad_pool", "p": self._pool(sim).idx, "v": rng.choice([-1, -2, -100, -0.5, -0.001])}
+            return {"op": "bad_pool", "p": self._pool(sim).idx, "v": rng.choice([-1, -2, -100, -0.5, -0.001, float("-inf")])}
         if how == "dup":
             pc = self._pool(sim, "T")
             if pc is None or not pc.live_names:
@@ -384,7 +392,7 @@ class PhasedGen(Gen):
         if cls == "S":
             p.update({"fk": "sync", "fn": rng.randrange(3), "ash": rng.choice(ASH), "ecb": rng.choice(self.CBS),
                       "ccb": rng.choice(self.CBS), "sc": [self._pscript() for _ in range(3)]})
-        return {"hmask": rng.choice([0, 0, 3, 7]), "pools": [p]}
+        return self._env_knobs({"hmask": rng.choice([0, 0, 3, 7]), "pools": [p]})
 
     def _pscript(self):
         rng = self.rng
@@ -666,7 +674,7 @@ class ScaleGen(Gen):
             p["size"] = rng.choice([None, 1, 7])
         if t == "names" and rng.random() < 0.5:
             p["name"] = self.LONG_POOL + rng.choice(["high", "low"])
-        return {"hmask": rng.choice([0, 3]), "pools": [p]}
+        return self._env_knobs({"hmask": rng.choice([0, 3]), "pools": [p]})
 
     def _scripts(self, n, gated):
         rng = self.rng
